@@ -1,16 +1,16 @@
 """Regenerate coq/gen/BitvectorGen.v from omega/logic/bitvector.py (tie T
 for C06; translator tools/py2coq_bitvector.py).
 
-Translated on every run: the circuit generators sign, pad, truncate,
-fixed_shift, sign_extension, equalize_width, _extend_memory,
-adder_subtractor, inequality, less_than, ite_function, ite_connective,
-_negate_if, abs_, _multiplier, multiplier, _restoring_divider,
-restoring_divider, the dispatchers flatten_arithmetic, flatten_comparator,
-and the flatten methods of Nodes.Arithmetic / Comparator / Operator (ite) /
-Unary (prime) that thread the memory buffer.  coq/GenProofs/BitvectorBridge.v
-and BitvectorFlatBridge.v prove the generated definitions equal to the
-emitter model (theories/L1Circuits/Deep.v, theories/L2Compile/Emit.v,
-Thread.v) and are re-proved on every run.
+Translated on every run: the circuit generators (sign .. restoring_divider),
+the dispatchers flatten_arithmetic / flatten_comparator, the leaf layer
+(int_to_twos_complement, twos_complement_to_int, var_to_twos_complement,
+_append_sign_bit, _is_bool_var, _assert_var_in_table) and the flatten
+methods of Nodes.Arithmetic / Comparator / Operator (ite) / Unary / Binary
+(connectives) / Var (names without a definition) / Num / Bool.
+coq/GenProofs/Bitvector{Bridge,LeafBridge,FlatBridge,Correct,Formula}.v
+prove the generated definitions equal to the models (theories/L1Circuits/
+Deep.v, theories/L2Compile/{Emit,Thread,Leaf}.v) and are re-proved on every
+run.
 """
 import os
 import sys
